@@ -180,7 +180,7 @@ def rule_E(ctx):
               witness={'ranges': [[vr(x) for x in r] if r else None for r, _ in got]}, node=bnd[0], key='boundary')
     # the flag comes from the kernel object
     txt = unparse(f.node)
-    ctx.check('boundary = %s.filterBoundary()' % kern in txt and 'boundary = False' in txt, 'C15.B', f,
+    ctx.recognise('boundary = %s.filterBoundary()' % kern in txt and 'boundary = False' in txt, 'C15.B', f,
               'the boundary setting is read from the kernel object (False for plain weight lists)', witness={}, node=f.node, key='flag')
     # list kernels: divided by their sum
     okl = 'norm = np.sum(np.array(%s))' % kern in txt
